@@ -117,6 +117,25 @@ theorem beginBlocker_ok (cfg : MintCfg) (blocked : Addr → Bool) (s : MintState
       rw [mintTail_sup]
       simp [ctr, mintTail, hc]
 
+/-- the module account's balance never decreases in the BeginBlocker -/
+theorem beginBlocker_module_mono (cfg : MintCfg) (blocked : Addr → Bool) (s s' : MintState)
+    (hne : cfg.ecoPool ≠ cfg.module) (h : beginBlocker cfg blocked s = .ok s') (d : Denom) :
+    s.bank.bal cfg.module d ≤ s'.bank.bal cfg.module d := by
+  rcases beginBlocker_cases cfg blocked s with ⟨h', _⟩ | ⟨c, amt, hc, _, _, _, h'⟩
+  · rw [h] at h'; cases h'; exact Nat.le_refl _
+  · rw [h] at h'; cases h'
+    have hne' : cfg.module ≠ cfg.ecoPool := fun e => hne e.symm
+    unfold mintTail
+    simp only
+    cases hs : sendModuleToAccount blocked (mintCoins s.bank cfg.module [(cfg.denom, amt)]) cfg.module cfg.ecoPool [(cfg.denom, amt)] with
+    | none => simp only; rw [bal_mintCoins]; omega
+    | some b' =>
+      simp only
+      unfold sendModuleToAccount at hs
+      split at hs
+      · cases hs
+      · rw [bal_sendCoins hs, bal_mintCoins]; simp [hne']
+
 theorem nextCounter_iter (cap p c0 n : Nat) (h : c0 ≤ cap) :
     nextCounter cap p (min (c0 + n * p) cap) = min (c0 + (n + 1) * p) cap := by
   unfold nextCounter
